@@ -16,6 +16,7 @@ SCRIPTS = [
     dict(system="rev", dt=0.05, ts=[0.2, 0.6], policy="on_interval", interval=0.12),
     dict(system="decay", dt=0.25, ts=[1.0], policy="no_sampling"),
     dict(system="rev", dt=0.2, ts=[0.1, 0.5, 1.1], tmax=1.7, policy="on_t_sample"),
+    dict(system="big", dt=0.25, ts=[0, 0.5, 1.0], policy="on_t_sample"),
 ]
 # gillespie: event-scale horizons so that runs stay within the reference window
 SCRIPTS_G = [
@@ -24,6 +25,7 @@ SCRIPTS_G = [
     dict(system="rev", dt=0.05, ts=[0.02, 0.04], policy="on_interval", interval=0.005),
     dict(system="decay", dt=0.25, ts=[0.1], policy="no_sampling"),
     dict(system="rev", dt=0.2, ts=[0.01, 0.03, 0.05], tmax=0.06, policy="on_t_sample"),
+    dict(system="big", dt=0.25, ts=[0, 0.5, 1.0], policy="on_t_sample"),
 ]
 
 
